@@ -88,9 +88,9 @@ where
             let guard = map.guard();
 
             while let Some((key, value)) = access.next_entry()? {
-                if let Some(_old_value) = map.insert(key, value, &guard) {
-                    unreachable!("Serialized map held two values with the same key");
-                }
+                // a well-formed input may repeat a key; as for the standard
+                // collections, the last value wins
+                let _old_value = map.insert(key, value, &guard);
             }
         }
 
